@@ -27,6 +27,9 @@ CLAIMED = {
  "C06": ("metamorphic monitor: eager dense evaluation vs every other way of requesting the same kernel entries; index expressions enumerated; witnesses on LazyEvaluatedKernelTensor paths",
          "Runtime monitoring of the real kernel / LazyEvaluatedKernelTensor API: for eleven kernels (single-output, composed, active_dims incl. permuted, multi-output Multitask/LCM/RBF-grad) and parameter x input batch patterns (incl. asymmetric x1/x2 batches) the eagerly evaluated matrix is compared with lazy.to_dense(), lazy[idx] for enumerated index expressions (fresh lazy tensor per expression), transpose, repeat, diag=True, K(x2,x1)^T, blocks of K([x1;x2]), kernel[i](x1[i],x2[i]) and expand_batch. Counters on _getitem/evaluate_kernel/_diagonal/_transpose_nonbatch show the lazy paths ran. Decides executed cells only.",
          "torch's D[idx] is the reference semantics of an index expression; kernel values themselves are C05's business.", "DESIGN.md §4 C06"),
+ "C02": ("reference-model monitor: real ExactMarginalLogLikelihood / LeaveOneOutPseudoLikelihood values and autograd gradients vs a dense per-batch-element definition; prior-enumeration count monitor; statistical decision on the CG+SLQ path",
+         "Runtime monitoring of the real objectives: value and the gradient w.r.t. every raw parameter are compared with [log N(y; mx, Kxx+S) + registered log priors at constrained values]/n built densely (autograd through the dense expression), for Gaussian / fixed-noise (+learned) / Kronecker multitask likelihoods, batch shapes, independent and shared prior instances; LOO against the literal refit-on-all-but-i definition; SumMarginalLogLikelihood = mean of members; the CG+SLQ path by mean of K=24 repetitions within 5 s.e.; anomaly detection during backward. Decides executed cells only.",
+         "Reference prior densities are torch.distributions of the documented family; kernels/means are the model's own evaluated eagerly.", "DESIGN.md §4 C02"),
 }
 NOT_YET = "check not built yet in this round (see DESIGN.md §9 build order); not claimed until its monitor exists and is silent on the unchanged tree"
 
